@@ -946,6 +946,13 @@ Definition positions_matchb (g : graph) : bool :=
                      | Some nd => n_pos nd =? posof (g_objs g) (g_order g) id
                      | None => false
                      end) (g_order g).
+(* the size cached in every node (a sorting heuristic AND, through positions, an input of the gate) is the length of
+   the bytes serialize will write for that object *)
+Definition sizes_matchb (g : graph) : bool :=
+  forallb (fun id => match mfind id (g_nodes g), mfind id (g_objs g) with
+                     | Some nd, Some o => n_size nd =? blen (o_bytes o)
+                     | _, _ => false
+                     end) (g_order g).
 (* the description only uses offset widths 2,3,4 (other widths are API misuse: see notes) *)
 Definition widths_ok (d : dag) : bool :=
   forallb (forallb (fun it => match it with ILink w _ => (2 <=? w) && (w <=? 4) | _ => true end)) d.
@@ -989,7 +996,7 @@ Definition check_case (c : case_ty) : bool :=
           (negb (widths_ok d) ||
            match packed_graph objs root with
            | Some g' => graph_hypsb objs root &&
-                        layout_okb (g_objs g') (g_order g') && positions_matchb g' &&
+                        layout_okb (g_objs g') (g_order g') && positions_matchb g' && sizes_matchb g' &&
                         (match g_order g' with x :: _ => x =? root | [] => false end)
            | None => true                (* success on the space-assignment path: no theorem applies *)
            end)
